@@ -430,7 +430,7 @@ func registerIntrinsics(e *Engine) {
 
 	// ---- hashing / compression models ----
 	in["hash/crc32.ChecksumIEEE"] = func(fr *frame, args []value) value {
-		return ufBytes(fr, "crc32", 32, sliceBytes(args[0]))
+		return crcModel(fr, sliceBytes(args[0]))
 	}
 	in["github.com/cespare/xxhash/v2.Sum64"] = func(fr *frame, args []value) value {
 		return ufBytes(fr, "xxh64", 64, sliceBytes(args[0]))
